@@ -188,7 +188,17 @@ def int_to_bytes(it, v: VInt, n: VInt, order: str, signed=False):
     if signed:
         raise OutOfSubset("to_bytes(signed=True)")
     if n.conc is None:
-        raise OutOfSubset("to_bytes with symbolic length")
+        # symbolic length: one path per feasible value (the executor forks; lengths beyond 96 bytes are outside the subset)
+        if it.pure:
+            raise OutOfSubset("to_bytes with symbolic length in a clause")
+        if it.branch(n.e < 0):
+            it.raise_(ValueError, "length argument must be non-negative")
+        for k in range(0, 97):
+            if it.branch(n.e == k):
+                n = VInt(k)
+                break
+        else:
+            raise OutOfSubset("to_bytes with a symbolic length above 96")
     n = n.conc
     if v.conc is not None:
         try:
